@@ -32,6 +32,11 @@ def check_C26(ctx, replay=None):
     sim = run_tlc(ctx, "MCBreaker", "MCBreakerSim.cfg", workers=1, simulate=300 if quick else 5000, depth=80, timeout=1800)
     _tlc_must_hold(ctx, sim, "c26:tlc-invariant")
     runs.append(sim)
+    # one thread, six operations: whole outage cycles (open, wait, probe, recover, fail again) that two operations per
+    # thread cannot reach; the ghost `cycle` in the view keeps one behaviour per stage of the cycle
+    seq = run_tlc(ctx, "MCBreaker", "MCBreakerSeq.cfg", workers=4, timeout=900)
+    _tlc_must_hold(ctx, seq, "c26:tlc-invariant")
+    runs.append(seq)
     plans, n = _plans(ctx, runs, "breaker-plans.ndjson")
     consts = _consts("MCBreaker.cfg")
     binary = cargo_build(ctx, "h-cluster")
@@ -56,7 +61,8 @@ def check_C26(ctx, replay=None):
         "constants": consts,
         "rule": "Breaker.tla transcribes should_allow_request / record_success / record_failure / estimated_recovery_time at "
                 "the grain of their atomic operations and clock readings; TLC explores every interleaving of 2 threads x 2 "
-                "operations (thorough: also 3 threads) with a freely advancing clock and checks NoUnderflow, "
+                "operations (thorough: also 3 threads), and of one thread x 6 operations (whole outage cycles), with a freely advancing clock "
+                "and checks NoUnderflow, "
                 "OpensOnlyAfterThreshold, ProbesBoundedUnlessLateReset. One behaviour per distinct final state (including the "
                 "ones in which a thread read the clock before a concurrent failure report stored a later time) plus random "
                 "walks are replayed on the real WriteCircuitBreaker in the dev profile: real threads parked at the hook point "
@@ -106,7 +112,7 @@ def check_C08(ctx, replay=None):
         r.prints = r.prints[:: max(1, len(r.prints) // cap)][:cap]
     plans, n = _plans(ctx, runs + sims, "watermark-plans.ndjson")
     binary = cargo_build(ctx, "h-cluster")
-    hr = run_harness(ctx, binary, ["watermark", plans], timeout=6000)
+    hr = core.run_harness_chunked(ctx, binary, lambda part: ["watermark", part], plans, chunk=1000, timeout=6000)
     for v in hr.violations:
         add_violation(ctx, v["key"], v["detail"], v["replay"])
     cov = {
@@ -206,7 +212,7 @@ def check_C12(ctx, replay=None):
         r.prints = fast[:: max(1, len(fast) // cap)][:cap] + slow[:: max(1, len(slow) // (cap // 4))][: cap // 4]
     plans, n = _plans(ctx, runs, "replicator-plans.ndjson")
     binary = cargo_build(ctx, "h-cluster")
-    hr = run_harness(ctx, binary, ["replicator", plans], timeout=9000)
+    hr = core.run_harness_chunked(ctx, binary, lambda part: ["replicator", part], plans, chunk=600, timeout=9000)
     for v in hr.violations:
         add_violation(ctx, v["key"], v["detail"], v["replay"])
     cov = {
@@ -304,7 +310,7 @@ def _replication(ctx, pid):
     sl.prints = by["ok"][: (40 if quick else 400)] + by["stale"][: (30 if quick else 200)] + by["buffered"][: (2 if quick else 10)]
     plans, n = _plans(ctx, [sim, cu, sl], "replication-plans.ndjson")
     binary = cargo_build(ctx, "h-cluster")
-    hr = run_harness(ctx, binary, ["vcluster", plans], timeout=9000)
+    hr = core.run_harness_chunked(ctx, binary, lambda part: ["vcluster", part], plans, chunk=400, timeout=9000)
     for v in hr.violations:
         k = v["key"]
         # the two properties share the machinery; each reports what belongs to it (conformance failures to both)
